@@ -127,6 +127,50 @@ def parse_json_lines(out):
     return res
 
 
+class LazyVectors:
+    """TLC's emitted transitions kept as JSON text and parsed when read: the thorough tier of the tier and Textgrid families
+    emits millions of them, which as Python dicts take over ten gigabytes (and are then copied page by page into every
+    forked worker by reference counting and the collector)."""
+
+    def __init__(self):
+        self.raw = []
+
+    def extend_from(self, out):
+        for line in out.splitlines():
+            if line.startswith('"{') and line.endswith('}"'):
+                try:
+                    self.raw.append(json.loads(line))
+                except ValueError:
+                    raise MachineryError("unparsable TLC JSON line: " + line[:200])
+
+    @staticmethod
+    def _parse(s):
+        try:
+            return json.loads(s)
+        except ValueError:
+            raise MachineryError("unparsable TLC JSON line: " + s[:200])
+
+    def __len__(self):
+        return len(self.raw)
+
+    def __getitem__(self, k):
+        if isinstance(k, slice):
+            return [self._parse(s) for s in self.raw[k]]
+        return self._parse(self.raw[k])
+
+    def __iter__(self):
+        for s in self.raw:
+            yield self._parse(s)
+
+
+def settle_memory():
+    """Called before worker pools are forked: what exists now is taken out of the collector's reach, so that a collection
+    in a worker does not touch (and thereby copy) the parent's pages."""
+    import gc
+    gc.collect()
+    gc.freeze()
+
+
 def simulate_behaviours(module, cfg, workdir, num, depth, seed=None):
     """TLC -simulate: returns (behaviours, run) where a behaviour is the list of states {variable: value} of one random walk"""
     from . import tlaval
